@@ -1,8 +1,13 @@
 //! Driver for spec module `Cro` on PREPARED states (unit level of C20): each case is one reaction
 //! update executed by the real component on a state built from integer energies:
-//! population (objective value of tag t is t), molecule list (kinetic energies), energy buffer,
-//! and the reactant / product populations the template would have pushed.
-//! One record per case: state before (integers), call, accepted / rejected, objective values after
+//! population (individual k holds solution `sol[k]` and the objective value `pe[k]` -- two individuals may hold
+//! the same solution with different objective values, as under a noisy objective function), molecule list
+//! (kinetic energies), energy buffer, the reactant / product populations the template would have pushed, and
+//! `below` further populations underneath (a caller's own populations, holding copies of the very individuals
+//! that react).  The integers are energies in the case's unit `2^unit` (multiplying by a power of two is exact in
+//! f64 and commutes with every rounding the components perform), so the model's integer decision binds at every
+//! magnitude: a product that is out of reach by one unit of 2^-54 is out of reach.
+//! One record per case: state before (integers), call, accepted / rejected, objective values and solutions after
 //! (exact integers), kinetic energy of the first reactant rounded down, buffer rounded (see
 //! spec/Trace_Cro.tla), and float facts as predicates (DESIGN §2.4, P-pred).
 use mahf::{
@@ -23,10 +28,17 @@ use crate::{
 
 type P = TagProblem;
 
+/// the solution products hold (spec/Cro.tla: Fresh) -- a bystander may hold it as well
+const FRESH: u32 = 1;
+
 struct Case {
     pe: Vec<u32>,
     ke: Vec<f64>,
+    /// solution held by individual k (small integers; equal entries = the same point of the search space)
+    sol: Vec<u32>,
     buffer: f64,
+    /// populations underneath the reaction's population
+    below: usize,
     op: String,
     i: usize, // 1-based, as in the model
     j: usize,
@@ -36,41 +48,77 @@ struct Case {
     lr: f64,
     /// offset added to the objective values of reactant i and product p1 (it cancels in every energy balance)
     off: f64,
+    /// energies are the integers above times 2^unit
+    unit: i32,
 }
 
-fn total(pop: &[Individual<P>], mols: &[Molecule<P>], buffer: f64) -> f64 {
-    pop.iter().map(|x| x.objective().value()).sum::<f64>() + mols.iter().map(|m| m.kinetic_energy).sum::<f64>() + buffer
+/// offsets up to 2^51 keep every sum of the balance below 2^53: the arithmetic stays exact and the integer model decides
+fn exact_off(off: f64) -> bool {
+    off <= (1u64 << 51) as f64
 }
 
 fn close(a: f64, b: f64) -> bool {
     (a - b).abs() <= 1e-9 * (1.0 + a.abs().max(b.abs()))
 }
 
+fn ind(sol: u32, value: f64) -> Individual<P> {
+    Individual::new(sol, value.try_into().unwrap())
+}
+
+fn same_bits(a: &Individual<P>, b: &Individual<P>) -> bool {
+    a.solution() == b.solution() && a.objective().value().to_bits() == b.objective().value().to_bits()
+}
+
 fn run_case(out: &mut Out, run: u64, c: &Case) {
-    let mut problem = TagProblem::identity(1 << 12);
-    if c.off != 0.0 {
-        // tags >= 2048 carry the offset: reactant i and product p1 are re-tagged
-        for t in 2048..(1 << 12) {
-            problem.table[t] = (t - 2048) as f64 + c.off;
-        }
-    }
-    let big = |t: u32| if c.off != 0.0 { t + 2048 } else { t };
+    let problem = TagProblem::identity(8);
+    let unit = 2f64.powi(c.unit);
+    let inexact = c.off != 0.0 && !exact_off(c.off);
     let mut state: State<P> = State::new();
-    let pop: Vec<Individual<P>> =
-        c.pe.iter().enumerate().map(|(k, t)| problem.evaluated(if c.off != 0.0 && k + 1 == c.i { big(*t) } else { *t })).collect();
-    let mols: Vec<Molecule<P>> = pop.iter().zip(&c.ke).map(|(x, k)| Molecule::new(*k, x.clone())).collect();
+    // individual k: (solution, objective value); reactant i and product p1 carry the offset
+    let off_of = |k: usize| if c.off != 0.0 && k + 1 == c.i { c.off } else { 0.0 };
+    let pop: Vec<Individual<P>> = c.pe.iter().enumerate().map(|(k, e)| ind(c.sol[k], (*e as f64 + off_of(k)) * unit)).collect();
+    let mols: Vec<Molecule<P>> = pop.iter().zip(&c.ke).map(|(x, k)| Molecule::new(*k * unit, x.clone())).collect();
     let reactants: Vec<Individual<P>> = match c.op.as_str() {
         "init" | "scoped_init" => Vec::new(),
         "on_wall" | "decompose" => vec![pop[c.i - 1].clone()],
         _ => vec![pop[c.i - 1].clone(), pop[c.j - 1].clone()],
     };
+    let prod1 = ind(FRESH, (c.p1 as f64 + c.off) * unit);
+    let prod2 = ind(FRESH, c.p2 as f64 * unit);
     let products: Vec<Individual<P>> = match c.op.as_str() {
         "init" | "scoped_init" => Vec::new(),
-        "on_wall" | "synthesis" => vec![problem.evaluated(big(c.p1))],
-        _ => vec![problem.evaluated(big(c.p1)), problem.evaluated(c.p2)],
+        "on_wall" | "synthesis" => vec![prod1.clone()],
+        _ => vec![prod1.clone(), prod2.clone()],
     };
-    let before_total = total(&pop, &mols, c.buffer);
+    // what an individual found afterwards is in the model's terms: its objective value as integer (offset taken out)
+    let mut known: Vec<(Individual<P>, i64)> = pop.iter().enumerate().map(|(k, x)| (x.clone(), c.pe[k] as i64)).collect();
+    known.push((prod1.clone(), c.p1 as i64));
+    known.push((prod2.clone(), c.p2 as i64));
+    let model_of = |x: &Individual<P>| known.iter().find(|(y, _)| same_bits(x, y)).map(|(_, e)| *e);
+    // energies in the model's unit (with an offset the unit is 1 and "up to rounding" is relative to the offset)
+    let energy = |x: &Individual<P>| -> f64 { x.objective().value() / unit };
+    let total = |pop: &[Individual<P>], mols: &[Molecule<P>], buffer: f64| -> f64 {
+        pop.iter().map(|x| energy(x)).sum::<f64>() + mols.iter().map(|m| m.kinetic_energy / unit).sum::<f64>() + buffer / unit
+    };
+    let before_total = total(&pop, &mols, c.buffer * unit);
+    // the caller's own populations underneath: copies of the reacting individuals, of the products, of the whole
+    // population, and strangers
+    let lower: Vec<Vec<Individual<P>>> = (0..c.below)
+        .map(|d| match d % 3 {
+            0 => {
+                let mut v = reactants.clone();
+                v.push(ind(7, 3.0 * unit));
+                v.extend(products.iter().cloned());
+                v
+            }
+            1 => pop.clone(),
+            _ => vec![ind(5, 0.0), ind(FRESH, 1.0 * unit)],
+        })
+        .collect();
     let mut pops = Populations::<P>::new();
+    for l in &lower {
+        pops.push(l.clone());
+    }
     pops.push(pop.clone());
     if c.op != "init" && c.op != "scoped_init" {
         pops.push(reactants);
@@ -79,10 +127,10 @@ fn run_case(out: &mut Out, run: u64, c: &Case) {
     state.insert(pops);
     state.insert(Random::new(c.seed));
     state.insert(ChemicalReaction::<P>(mols.clone()));
-    state.insert(EnergyBuffer(c.buffer));
+    state.insert(EnergyBuffer(c.buffer * unit));
     let comp: Box<dyn Component<P>> = match c.op.as_str() {
         // the initialisation component executed on a state that already holds molecule records
-        "init" | "scoped_init" => mahf::components::misc::cro::ChemicalReactionInit::new(c.p1 as f64, 0.0),
+        "init" | "scoped_init" => mahf::components::misc::cro::ChemicalReactionInit::new(c.p1 as f64 * unit, 0.0),
         "on_wall" => OnWallIneffectiveCollisionUpdate::new(c.lr),
         "decompose" => DecompositionUpdate::new(),
         "intermolecular" => IntermolecularIneffectiveCollisionUpdate::new(),
@@ -106,20 +154,21 @@ fn run_case(out: &mut Out, run: u64, c: &Case) {
             comp.execute(&problem, &mut state)
         }
     }));
-    let base = json!({"run": run, "op": c.op, "i": c.i, "j": c.j, "p1": c.p1, "p2": c.p2, "pe": c.pe,
+    let base = json!({"run": run, "op": c.op, "i": c.i, "j": c.j, "p1": c.p1, "p2": c.p2, "pe": c.pe, "sol": c.sol, "below": c.below,
                       "ke": c.ke.iter().map(|k| *k as i64).collect::<Vec<_>>(), "buffer": c.buffer as i64, "seed": c.seed, "lr": c.lr,
-                      "big": (c.off != 0.0) as i64});
+                      "unit": c.unit, "off": format!("{:e}", c.off), "big": inexact as i64});
     let mut rec = base.as_object().unwrap().clone();
     let bad = |rec: &mut serde_json::Map<String, Value>, what: &str, err: String| {
         rec.insert("res".into(), json!(what));
         rec.insert("error".into(), json!(err));
         rec.insert("pe2".into(), json!([]));
+        rec.insert("sol2".into(), json!([]));
         rec.insert("nm".into(), json!(0));
         rec.insert("bf".into(), json!(0));
         rec.insert("kef".into(), json!(0));
         rec.insert("ke2".into(), json!([]));
         rec.insert("h2".into(), json!(0));
-        rec.insert("pred".into(), json!({"cons": 0, "nonneg": 0, "split": 0, "local": 0, "aligned": 0}));
+        rec.insert("pred".into(), json!({"cons": 0, "nonneg": 0, "split": 0, "local": 0, "aligned": 0, "lower": 0}));
     };
     match result {
         Err(p) => bad(&mut rec, "panic", p),
@@ -129,139 +178,156 @@ fn run_case(out: &mut Out, run: u64, c: &Case) {
             let pop2: Vec<Individual<P>> = if h2 >= 1 { state.populations().current().to_vec() } else { Vec::new() };
             let mols2: Vec<Molecule<P>> = state.borrow::<ChemicalReaction<P>>().0.clone();
             let buffer2 = state.get_value::<EnergyBuffer>();
-            let same_pop = pop2.len() == pop.len() && pop2.iter().zip(&pop).all(|(a, b)| a == b);
+            // the populations underneath are what they were (bit for bit, in place)
+            let lower_ok = h2 == c.below + 1 && {
+                let pops = state.populations();
+                lower.iter().enumerate().all(|(d, l)| {
+                    let now = pops.peek(h2 - 1 - d);
+                    now.len() == l.len() && now.iter().zip(l).all(|(a, b)| same_bits(a, b))
+                })
+            };
+            let same_pop = pop2.len() == pop.len() && pop2.iter().zip(&pop).all(|(a, b)| same_bits(a, b));
             let same_ke = mols2.len() == mols.len()
                 && mols2.iter().zip(&mols).all(|(a, b)| a.kinetic_energy.to_bits() == b.kinetic_energy.to_bits());
-            let unchanged = same_pop && same_ke && buffer2.to_bits() == c.buffer.to_bits();
+            let unchanged = same_pop && same_ke && buffer2.to_bits() == (c.buffer * unit).to_bits();
             // whether the reaction was accepted is decided by the model from the integer state; `changed` only selects which
             // float facts are meaningful (a reaction that leaves everything as it was satisfies them trivially)
             let accepted = !unchanged;
             let after_total = total(&pop2, &mols2, buffer2);
             let cons = close(before_total, after_total);
             let nonneg = buffer2 >= 0.0 && mols2.iter().all(|m| m.kinetic_energy >= 0.0);
+            let pe2: Vec<i64> = pop2.iter().map(|x| model_of(x).unwrap_or(-1)).collect();
+            let sol2: Vec<u32> = pop2.iter().map(|x| *x.solution()).collect();
             // participants: reactant positions (0-based) before; products sit at i (and j, or at the end for decomposition)
             if c.op == "init" || c.op == "scoped_init" {
                 let aligned = mols2.len() == pop2.len() && mols2.iter().zip(&pop2).all(|(m, x)| m.best == *x);
                 rec.insert("res".into(), json!(if accepted { "changed" } else { "unchanged" }));
-                rec.insert("pe2".into(), json!(pop2.iter().map(|x| x.objective().value() as i64).collect::<Vec<_>>()));
-                rec.insert("ke2".into(), json!(mols2.iter().map(|m| m.kinetic_energy as i64).collect::<Vec<_>>()));
+                rec.insert("pe2".into(), json!(pe2));
+                rec.insert("sol2".into(), json!(sol2));
+                rec.insert("ke2".into(), json!(mols2.iter().map(|m| (m.kinetic_energy / unit) as i64).collect::<Vec<_>>()));
                 rec.insert("nm".into(), json!(mols2.len()));
-                rec.insert("bf".into(), json!(buffer2 as i64));
+                rec.insert("bf".into(), json!((buffer2 / unit) as i64));
                 rec.insert("kef".into(), json!(0));
                 rec.insert("h2".into(), json!(h2));
-                rec.insert("pred".into(), json!({"cons": 1, "nonneg": nonneg as i64, "split": 1, "local": same_pop as i64, "aligned": aligned as i64}));
+                rec.insert("pred".into(), json!({"cons": 1, "nonneg": nonneg as i64, "split": 1, "local": same_pop as i64, "aligned": aligned as i64,
+                                                 "lower": lower_ok as i64}));
                 out.emit(&Value::Object(rec));
                 return;
             }
             let (bi, bj) = (c.i - 1, if c.j > 0 { Some(c.j - 1) } else { None });
+            let kept = |n: usize, o: usize| same_bits(&pop2[n], &pop[o]) && mols2[n].kinetic_energy.to_bits() == mols[o].kinetic_energy.to_bits();
             // synthesis: both reactants disappear, everyone else keeps their relative order (bit-identical), and the product
             // sits at some position k -- the statement does not say which slot it inherits
             let synth_pos: Option<usize> = if c.op == "synthesis" && accepted && pop2.len() + 1 == pop.len() && mols2.len() == pop2.len() {
                 let keep: Vec<usize> = (0..pop.len()).filter(|k| *k != bi && Some(*k) != bj).collect();
                 (0..pop2.len()).find(|k| {
                     let rest: Vec<usize> = (0..pop2.len()).filter(|n| n != k).collect();
-                    rest.len() == keep.len()
-                        && rest.iter().zip(&keep).all(|(n, o)| {
-                            pop2[*n] == pop[*o] && mols2[*n].kinetic_energy.to_bits() == mols[*o].kinetic_energy.to_bits()
-                        })
+                    rest.len() == keep.len() && same_bits(&pop2[*k], &prod1) && rest.iter().zip(&keep).all(|(n, o)| kept(*n, *o))
                 })
             } else {
                 None
             };
+            let shaped = mols2.len() == pop2.len();
             let local = if !accepted {
                 true
             } else {
                 match c.op.as_str() {
-                    "on_wall" | "intermolecular" => (0..pop.len()).all(|k| {
-                        k == bi || Some(k) == bj || (pop2[k] == pop[k] && mols2[k].kinetic_energy.to_bits() == mols[k].kinetic_energy.to_bits())
-                    }),
-                    "decompose" => {
-                        pop2.len() == pop.len() + 1
-                            && (0..pop.len()).all(|k| k == bi || (pop2[k] == pop[k] && mols2[k].kinetic_energy.to_bits() == mols[k].kinetic_energy.to_bits()))
-                    }
+                    "on_wall" | "intermolecular" => shaped && pop2.len() == pop.len() && (0..pop.len()).all(|k| k == bi || Some(k) == bj || kept(k, k)),
+                    "decompose" => shaped && pop2.len() == pop.len() + 1 && (0..pop.len()).all(|k| k == bi || kept(k, k)),
                     _ => synth_pos.is_some(),
                 }
             };
             // energy of the participants (and the buffer) before = after
-            let part_before: f64 = c.buffer
-                + pop[bi].objective().value()
-                + mols[bi].kinetic_energy
-                + bj.map(|j| pop[j].objective().value() + mols[j].kinetic_energy).unwrap_or(0.0);
-            let split = if !accepted || mols2.len() != pop2.len() {
-                mols2.len() == pop2.len()
+            let part_before: f64 = c.buffer + energy(&pop[bi]) + c.ke[bi] + bj.map(|j| energy(&pop[j]) + c.ke[j]).unwrap_or(0.0);
+            let split = if !accepted || !shaped {
+                shaped
             } else {
                 let pos_i = if c.op == "synthesis" { synth_pos.unwrap_or(0) } else { bi };
-                let mut after = buffer2 + pop2[pos_i].objective().value() + mols2[pos_i].kinetic_energy;
+                let mut after = buffer2 / unit + energy(&pop2[pos_i]) + mols2[pos_i].kinetic_energy / unit;
                 match c.op.as_str() {
-                    "decompose" => after += pop2[pop2.len() - 1].objective().value() + mols2[mols2.len() - 1].kinetic_energy,
-                    "intermolecular" => after += pop2[bj.unwrap()].objective().value() + mols2[bj.unwrap()].kinetic_energy,
+                    "decompose" => after += energy(&pop2[pop2.len() - 1]) + mols2[mols2.len() - 1].kinetic_energy / unit,
+                    "intermolecular" => after += energy(&pop2[bj.unwrap()]) + mols2[bj.unwrap()].kinetic_energy / unit,
                     _ => {}
                 }
                 close(part_before, after)
             };
-            let aligned = mols2.len() == pop2.len()
-                && mols2.iter().zip(&pop2).all(|(m, x)| m.best.objective() <= x.objective());
+            let aligned = shaped && mols2.iter().zip(&pop2).all(|(m, x)| m.best.objective() <= x.objective());
             let pos_i = if c.op == "synthesis" && accepted { synth_pos.unwrap_or(0) } else { bi };
-            let kef = mols2.get(pos_i).map(|m| m.kinetic_energy.floor() as i64).unwrap_or(-1);
-            let bf = if c.op == "on_wall" { buffer2.ceil() as i64 } else { buffer2.floor() as i64 };
+            let kef = mols2.get(pos_i).map(|m| (m.kinetic_energy / unit).floor() as i64).unwrap_or(-1);
+            let bf = if c.op == "on_wall" { (buffer2 / unit).ceil() as i64 } else { (buffer2 / unit).floor() as i64 };
             rec.insert("res".into(), json!(if accepted { "changed" } else { "unchanged" }));
-            rec.insert("pe2".into(), json!(pop2.iter().map(|x| if *x.solution() >= 2048 { *x.solution() as i64 - 2048 } else { *x.solution() as i64 }).collect::<Vec<_>>()));
+            rec.insert("pe2".into(), json!(pe2));
+            rec.insert("sol2".into(), json!(sol2));
             rec.insert("nm".into(), json!(mols2.len()));
             rec.insert("bf".into(), json!(bf));
             rec.insert("kef".into(), json!(kef));
             rec.insert("ke2".into(), json!([]));
             rec.insert("h2".into(), json!(h2));
             rec.insert("pred".into(), json!({"cons": cons as i64, "nonneg": nonneg as i64, "split": split as i64, "local": local as i64,
-                                             "aligned": aligned as i64}));
+                                             "aligned": aligned as i64, "lower": lower_ok as i64}));
         }
     }
     out.emit(&Value::Object(rec));
 }
 
-/// the reactant the component resolves by equality is the FIRST individual equal to the selected one
-fn canonical(pe: &[u32], i: usize, j: usize) -> bool {
+/// A reactant is handed to the component as a copy of the selected individual; among several individuals that are equal
+/// in solution AND objective value the selected one cannot be told apart, so the case names the first of them
+fn canonical(pe: &[u32], sol: &[u32], i: usize, j: usize, off: f64) -> bool {
     if i == 0 {
         return true; // (re-)initialisation: no reactant
     }
-    let first_i = pe.iter().position(|x| *x == pe[i - 1]).unwrap() + 1;
+    // (the reactant carrying an offset is equal to nobody else)
+    let eq = |a: usize, b: usize| pe[a] == pe[b] && sol[a] == sol[b] && (off == 0.0 || (a + 1 == i) == (b + 1 == i));
+    let first_i = (0..pe.len()).position(|k| eq(k, i - 1)).unwrap() + 1;
     if first_i != i {
         return false;
     }
     if j == 0 {
         return true;
     }
-    let first_j = pe.iter().enumerate().position(|(k, x)| k + 1 != i && *x == pe[j - 1]).unwrap() + 1;
+    let first_j = (0..pe.len()).position(|k| k + 1 != i && eq(k, j - 1)).unwrap() + 1;
     first_j == j
 }
+
+/// units the exported cases are run at, in turn
+const UNITS: [i32; 6] = [0, -54, 0, -60, 40, -53];
 
 pub fn main(args: &Args) -> usize {
     let mut out = Out::create(&args.str("out"));
     match args.mode.as_str() {
-        // cases exported from TLC: {"from": {pe, ke, buffer}, "act": {op, i, j, p1, p2}}, executed with `seeds` seeds each
+        // cases exported from TLC: {"from": {pe, ke, sol, buffer, below}, "act": {op, i, j, p1, p2}}, executed with `seeds` seeds
+        // each (a replay file may fix the unit: "unit")
         "replay" => {
             let seeds = args.num("seeds", 2);
             let mut run = 0u64;
-            for case in read_ndjson(&args.str("in")) {
-                let pe: Vec<u32> = case["from"]["pe"].as_array().unwrap().iter().map(|x| x.as_u64().unwrap() as u32).collect();
+            for (idx, case) in read_ndjson(&args.str("in")).iter().enumerate() {
+                let ints = |v: &Value| -> Vec<u32> { v.as_array().map(|a| a.iter().map(|x| x.as_u64().unwrap() as u32).collect()).unwrap_or_default() };
+                let pe = ints(&case["from"]["pe"]);
                 let ke: Vec<f64> = case["from"]["ke"].as_array().unwrap().iter().map(|x| x.as_f64().unwrap()).collect();
+                let sol = if case["from"]["sol"].is_array() { ints(&case["from"]["sol"]) } else { (0..pe.len() as u32).map(|k| k + 2).collect() };
+                let below = case["from"]["below"].as_u64().unwrap_or(0) as usize;
                 let a = &case["act"];
                 let (i, j) = (a["i"].as_u64().unwrap() as usize, a["j"].as_u64().unwrap() as usize);
-                if !canonical(&pe, i, j) {
+                let off: f64 = case["off"].as_str().and_then(|s| s.parse().ok()).unwrap_or(0.0);
+                if !canonical(&pe, &sol, i, j, off) {
                     continue;
                 }
                 for s in 0..seeds {
                     let c = Case {
                         pe: pe.clone(),
                         ke: ke.clone(),
+                        sol: sol.clone(),
                         buffer: case["from"]["buffer"].as_f64().unwrap(),
+                        below,
                         op: a["op"].as_str().unwrap().to_string(),
                         i,
                         j,
                         p1: a["p1"].as_u64().unwrap() as u32,
                         p2: a["p2"].as_u64().unwrap() as u32,
                         seed: args.seed() + s,
-                        lr: if s % 2 == 0 { 0.1 } else { 0.0 },
-                        off: 0.0,
+                        lr: case["lr"].as_f64().unwrap_or(if s % 2 == 0 { 0.1 } else { 0.0 }),
+                        off,
+                        unit: case["unit"].as_i64().map(|u| u as i32).unwrap_or(UNITS[(idx + s as usize) % UNITS.len()]),
                     };
                     run_case(&mut out, run, &c);
                     run += 1;
@@ -274,19 +340,36 @@ pub fn main(args: &Args) -> usize {
             let maxe0 = args.num("maxe", 60) as u32;
             for run in 0..n {
                 let mut r = rng(args.seed(), run);
-                // the cases with a huge common offset (every fifth) use values around the resolution of floats at
-                // that magnitude (2^60 has steps of 256), so that sums are inexact
-                let maxe = if run % 5 == 4 { 400 } else { maxe0 };
+                // every fifth case: reactant i and its product share a huge offset (energies of very different magnitude):
+                // alternately 2^60 (steps of 256 there: the values are chosen around that resolution, sums are inexact) and
+                // 2^51 (every sum of the balance stays exact: a product out of reach by 1 in 2^51 is out of reach)
+                let off = if run % 10 == 4 {
+                    (1u64 << 60) as f64
+                } else if run % 10 == 9 {
+                    (1u64 << 51) as f64
+                } else {
+                    0.0
+                };
+                // every seventh of the others: objective values around 2^26 (a gap of 1 is a relative difference of 1e-8);
+                // kinetic energies, buffer and the released energy stay small (the model enumerates the shares)
+                let wide = off == 0.0 && run % 7 == 3;
+                let maxe = if off != 0.0 && !exact_off(off) { 400 } else { maxe0 };
                 let size = r.gen_range(1..=6usize);
                 // few distinct values: equal individuals are common
                 let span = if r.gen_bool(0.5) { 3 } else { maxe };
-                let pe: Vec<u32> = (0..size).map(|_| r.gen_range(0..=span)).collect();
+                let level = if wide { r.gen_range(1u32..=(1 << 26)) } else { 0 };
+                let pe: Vec<u32> = (0..size).map(|_| level + r.gen_range(0..=span)).collect();
+                // few distinct solutions: the same point evaluated to different values (and copies) is common; products hold 1
+                let nsol = [1u32, 2, 3, 9][r.gen_range(0..4)];
+                let sol: Vec<u32> = (0..size).map(|_| r.gen_range(1..=nsol)).collect();
                 let ke: Vec<f64> = (0..size).map(|_| if r.gen_bool(0.3) { 0.0 } else { r.gen_range(0..=maxe) as f64 }).collect();
                 let buffer = if r.gen_bool(0.3) { 0.0 } else { r.gen_range(0..=2 * maxe) as f64 };
+                let below = [0usize, 0, 1, 2, 3][r.gen_range(0..5)];
+                let unit = if off != 0.0 { 0 } else { [0, 0, -54, -53, -60, -200, 30, 200][r.gen_range(0..8)] };
                 if r.gen_range(0..12) == 0 {
                     let k0 = r.gen_range(0..=maxe);
                     let op = if r.gen_bool(0.5) { "init" } else { "scoped_init" };
-                    let c = Case { pe, ke, buffer, op: op.to_string(), i: 0, j: 0, p1: k0, p2: 0, seed: args.seed() ^ run, lr: 0.1, off: 0.0 };
+                    let c = Case { pe, ke, sol, buffer, below, op: op.to_string(), i: 0, j: 0, p1: k0, p2: 0, seed: args.seed() ^ run, lr: 0.1, off: 0.0, unit };
                     run_case(&mut out, run, &c);
                     continue;
                 }
@@ -302,21 +385,31 @@ pub fn main(args: &Args) -> usize {
                 } else {
                     0
                 };
-                if !canonical(&pe, i, j) {
+                if !canonical(&pe, &sol, i, j, off) {
                     continue;
                 }
-                // products around the released energy: accepted, rejected and boundary cases are all frequent
+                // products around the released energy: accepted, rejected and boundary cases (exactly affordable, out of reach
+                // by one) are all frequent
                 let avail = pe[i - 1] + ke[i - 1] as u32 + if j > 0 { pe[j - 1] + ke[j - 1] as u32 } else { 0 };
+                let two = op == "decompose" || op == "intermolecular";
                 let pick = |r: &mut rand_chacha::ChaCha8Rng| match r.gen_range(0..4) {
                     0 => avail,
                     1 => avail / 2,
                     2 => r.gen_range(0..=avail + 3),
                     _ => r.gen_range(0..=2 * maxe),
                 };
-                let (p1, p2) = (pick(&mut r), pick(&mut r));
-                // every fifth case: reactant i and its product share a huge offset (energies of very different magnitude)
-                let off = if run % 5 == 4 { (1u64 << 60) as f64 } else { 0.0 };
-                let c = Case { pe, ke, buffer, op: op.to_string(), i, j, p1, p2, seed: args.seed() ^ run, lr: [0.0, 0.1, 0.9][r.gen_range(0..3)], off };
+                let (mut p1, mut p2) = (pick(&mut r), pick(&mut r));
+                if wide || r.gen_range(0..3) == 0 {
+                    // the products together cost exactly what is there, one more, or a little less
+                    let target = if wide && r.gen_bool(0.5) { avail.saturating_sub(r.gen_range(0..=maxe)) } else { avail + r.gen_range(0..=1) };
+                    if two {
+                        p1 = r.gen_range(0..=target);
+                        p2 = target - p1;
+                    } else {
+                        p1 = target;
+                    }
+                }
+                let c = Case { pe, ke, sol, buffer, below, op: op.to_string(), i, j, p1, p2, seed: args.seed() ^ run, lr: [0.0, 0.1, 0.9][r.gen_range(0..3)], off, unit };
                 run_case(&mut out, run, &c);
             }
         }
